@@ -23,13 +23,25 @@ na = []
 for p in props:
     if p not in have:
         na.append(dict(property_id=p, reason=na_given.get(p, "not claimed yet: its model, theorems and correspondence check are still being built (see DESIGN.md section 6); nothing is asserted about it")))
+# MANIFEST.hooks and known_findings.jsonl are assembled from per-group fragments
 hooks_commits = []
-hp = os.path.join(V, "MANIFEST.hooks")
-if os.path.exists(hp):
+hook_lines = []
+for hp in sorted(glob.glob(os.path.join(V, "hooks.d", "*.txt"))):
     for l in open(hp):
         l = l.strip()
         if l and not l.startswith("#"):
             hooks_commits.append(l.split()[0])
+            hook_lines.append(l)
+open(os.path.join(V, "MANIFEST.hooks"), "w").write(
+    "# <commit> <path> <purpose>  (all hook files are add-only, //go:build verif)\n" + "\n".join(hook_lines) + ("\n" if hook_lines else ""))
+kf = []
+for kp in sorted(glob.glob(os.path.join(V, "known_findings.d", "*.jsonl"))):
+    for l in open(kp):
+        l = l.strip()
+        if l and not l.startswith("#"):
+            json.loads(l)
+            kf.append(l)
+open(os.path.join(V, "known_findings.jsonl"), "w").write("\n".join(kf) + ("\n" if kf else ""))
 m = dict(
     version=1,
     setup_cmd="./tools/setup.sh",
